@@ -52,6 +52,8 @@ def native(script, args, timeout=3000, env=None):
     e.update(env or {})
     e.setdefault('REPO', '/repo')
     e['PYTHONWARNINGS'] = 'ignore'
+    for k in ('OMP_NUM_THREADS', 'MKL_NUM_THREADS', 'OPENBLAS_NUM_THREADS'):      # tiny tensors: thread pools only spin
+        e.setdefault(k, '1')
     p = subprocess.run([VENV_PY, os.path.join(ROOT, 'native', script)] + [str(a) for a in args],
                        capture_output=True, text=True, timeout=timeout, env=e, cwd=ROOT)
     out = p.stdout.strip().splitlines()
@@ -100,6 +102,18 @@ def main(argv=None):
     # ---- native part: spec-vs-oracle, axiom twins, bounded tier ---------------------
     native_res = []
     checker_errors = []
+    # axiom twins: the primitive axioms evaluated on concrete operands by the verifier's own code, recomputed natively
+    try:
+        tw = os.path.join(ROOT, 'replays', '_jobs', 'twins_%s.json' % prop)
+        os.makedirs(os.path.dirname(tw), exist_ok=True)
+        g = subprocess.run([sys.executable, '-m', 'cbv.twins', tw, str(seed)], cwd=ROOT, capture_output=True, text=True, timeout=900)
+        rc_t, js_t, err_t = native('twins_check.py', [tw])
+        native_res.append({'what': 'twins: primitive axioms vs installed torch/numpy/pywt', 'script': 'cbv/twins.py + native/twins_check.py',
+                           'rc': rc_t, 'result': js_t})
+        if g.returncode != 0 or rc_t != 0 or js_t.get('n_bad', 1) != 0:
+            checker_errors.append('axiom twins: %s %s' % (json.dumps(js_t)[:400], (g.stderr or '')[-300:]))
+    except Exception as e:
+        checker_errors.append('axiom twins could not run: %s' % e)
     for script, args, what in plan.get('native', []):
         try:
             rc, js, err = native(script, args)
@@ -197,25 +211,54 @@ def main(argv=None):
             if js.get('n_errors'):
                 checker_errors.append('bounded tier checker errors: %s' % json.dumps(js.get('errors'))[:500])
 
-    # refuted obligations: replay on the real code
+    # refuted obligations: replay on the real code (the group's own recipe, else the property's default recipes)
+    replay_cache = {}
+
+    def recipes_for(g):
+        if g.replay:
+            return [g.replay]
+        d = plan.get('default_replay')
+        if callable(d):
+            return list(d(g))[:8]
+        if d is None:            # derive from the bounded tier's job list: the same run-time contracts, searched over small sizes
+            d, seen = [], set()
+            for sc, a, _w in plan.get('native', []):
+                if sc == 'bounded.py' and os.path.exists(str(a[0])):
+                    for j in json.load(open(a[0])):
+                        k = json.dumps([j['fn'], j.get('cfg', {})], sort_keys=True)
+                        if k not in seen:
+                            seen.add(k)
+                            d.append({'fn': j['fn'], 'cfg': j.get('cfg', {})})
+        sel = [r for r in d if 'mode' in r.get('cfg', {}) and ('[%s' % r['cfg']['mode'] in g.gid or ',%s' % r['cfg']['mode'] in g.gid)]
+        return (sel or d)[:8]
+
+    def try_replay(oid, spec, recipes):
+        """-> (reproduced, path); the first recipe that reproduces wins"""
+        path = _write_replay(prop, oid, spec)
+        for r in recipes:
+            key = json.dumps(r, sort_keys=True)
+            spec.update({'fn': r['fn'], 'cfg': r.get('cfg', {})})
+            if key not in replay_cache:
+                path = _write_replay(prop, oid, spec)
+                try:
+                    wrc, wjs, _ = native('replay.py', [path, '--search'], timeout=900)
+                except Exception as e:
+                    wjs = {'reproduced': None, 'error': str(e)}
+                replay_cache[key] = wjs
+            wjs = replay_cache[key]
+            spec.setdefault('replay_attempts', []).append({'fn': r['fn'], 'cfg': r.get('cfg', {}), 'reproduced': wjs.get('reproduced'),
+                                                           'detail': str(wjs.get('detail'))[:200]})
+            if wjs.get('reproduced'):
+                spec['replay_result'] = wjs
+                spec['failing_input'] = wjs.get('sizes')
+                return True, _write_replay(prop, oid, spec)
+        return False, _write_replay(prop, oid, spec)
+
     for g, robs in violations:
         o = robs[0] if robs else {'id': '%s/%s' % (prop, g.gid), 'detail': {}}
         spec = {'property': prop, 'obligation': o['id'], 'group': g.gid, 'solver_output': o.get('detail'),
-                'all_refuted': [q['id'] for q in robs][:20]}
-        reproduced = None
-        if g.replay:
-            spec.update({'fn': g.replay['fn'], 'cfg': g.replay.get('cfg', {}),
-                         'model': (o.get('detail') or {}).get('model', {})})
-            path = _write_replay(prop, o['id'], spec)
-            try:
-                wrc, wjs, _ = native('replay.py', [path, '--search'], timeout=900)
-                reproduced = wjs.get('reproduced')
-                spec['replay_result'] = wjs
-                if reproduced:
-                    spec['failing_input'] = wjs.get('sizes')
-            except Exception as e:
-                spec['replay_result'] = {'error': str(e)}
-        path = _write_replay(prop, o['id'], spec)
+                'all_refuted': [q['id'] for q in robs][:20], 'model': (o.get('detail') or {}).get('model', {})}
+        reproduced, path = try_replay(o['id'], spec, recipes_for(g))
         if reproduced:
             lines.append('VIOLATION property=%s replay=%s' % (prop, path))
         else:
@@ -225,20 +268,13 @@ def main(argv=None):
     # undecided obligations: bounded tier stands in (never counted as proved)
     for g, why in undecided:
         lines.append('UNDECIDED group=%s/%s (%s)' % (prop, g.gid, str(why)[:200].replace('\n', ' ')))
-        if g.replay:
-            spec = {'property': prop, 'obligation': '%s/%s' % (prop, g.gid), 'fn': g.replay['fn'],
-                    'cfg': g.replay.get('cfg', {}), 'model': {}, 'solver_output': str(why)[:1000]}
-            path = _write_replay(prop, g.gid + '-undecided', spec)
-            try:
-                wrc, wjs, _ = native('replay.py', [path, '--search'], timeout=900)
-                if wjs.get('reproduced'):
-                    spec['failing_input'] = wjs.get('sizes')
-                    spec['replay_result'] = wjs
-                    _write_replay(prop, g.gid + '-undecided', spec)
-                    lines.append('VIOLATION property=%s replay=%s' % (prop, path))
-                    rc = 1
-            except Exception:
-                pass
+        rs_ = recipes_for(g)
+        if rs_:
+            spec = {'property': prop, 'obligation': '%s/%s' % (prop, g.gid), 'model': {}, 'solver_output': str(why)[:1000]}
+            reproduced, path = try_replay(g.gid + '-undecided', spec, rs_)
+            if reproduced:
+                lines.append('VIOLATION property=%s replay=%s' % (prop, path))
+                rc = 1
 
     if canary_fail:
         checker_errors.append('vacuity canaries not refuted: %s' % canary_fail)
